@@ -107,6 +107,7 @@ def _scan(q, f, funcs, by_name, result):
 
     def hold(al, target_value, pr):
         b = _alias.base_name(target_value)
+        b = b.split(".")[0] if b else b
         if b is not None and (pr[0] or pr[1]):
             al["*" + b] = set(al.get("*" + b, ())) | pr[0] | pr[1]
 
